@@ -505,7 +505,9 @@ class Lib(object):
             if engine.feasible(nb):
                 yield nb, Raised(AttributeError, ExcObj(AttributeError))
             by = st.fork().assume(Val.is_VBytes(z)).label("L%d:bytes.%s" % (ln, name))
-            if engine.feasible(by):
+            if engine.feasible(by) and name in ("split", "count", "startswith") and args and all(isinstance(a, (str, SStr)) for a in args):
+                yield by, Raised(TypeError, ExcObj(TypeError))       # bytes.split('.') etc.: a bytes-like object is required
+            elif engine.feasible(by):
                 yield by, (SBytes(ops.TEXT_FMT(Val.VStr(seq_lit("bytes." + name)), Val.VTuple(to_vl([o] + list(args)))))
                            if name in ("lower", "upper") else
                            SVal(self.spec.uf["text_format"](Val.VStr(seq_lit("bytes." + name)), to_vl([o] + list(args)))))
@@ -549,6 +551,13 @@ class Lib(object):
             self.used.add("str.%s: an uninterpreted pure function text -> text" % name)
             fmt = Val.VStr(seq_lit("." + name))
             yield st, SStr(ops.TEXT_FMT(fmt, Val.VTuple(to_vl([o] + list(args)))))
+            return
+        if isinstance(o, SStr) and name == "split" and len(args) == 1 and isinstance(args[0], (str, SStr)) and not kwargs:
+            # text.split(sep): a non-empty list of texts (modelled as a tuple), an uninterpreted function of text and separator
+            self.used.add("str.split(sep): a non-empty list of texts, an uninterpreted function of the text and the separator")
+            res = self.spec.uf["seq_of"](z3.IntVal(4), Val.VTuple(to_vl([o, args[0]])))
+            st.assume(z3.And(Val.is_VTuple(res), VL.is_cons(Val.titems(res)), Val.is_VStr(VL.hd(Val.titems(res)))))
+            yield st, SVal(res)
             return
         if isinstance(o, (SStr, SBytes)) and name == "startswith" and len(args) == 1:
             a = engine.narrow(st, args[0], "str" if isinstance(o, SStr) else "bytes", node, "startswith argument")
